@@ -19,4 +19,9 @@ PgProbe == { <<17>>, <<18, 1, 0>>, <<18, 80>>, <<1>> }
 PbKeys == { <<18, 52>>, <<34, 52>>, <<18, 83>>, <<18, 84>>, <<31>> }
 PbVals == { Rep(27, 2), Rep(28, 8), Rep(29, 4), Rep(30, 6), <<1>> }
 PbProbe == { <<18, 53>>, <<35>> }
+(* inline alphabet: small values only, keys that share long prefixes: value-less branches, branches with a value and *)
+(* leaves that are all INLINED in their parents (encodings below 32 bytes), two and three levels deep (seed C05c)     *)
+PiKeys == { <<18>>, <<18, 83>>, <<18, 84>>, <<18, 83, 1>>, <<18, 83, 2>>, <<31>>, <<49, 16>>, <<49, 17>> }
+PiVals == { <<>>, <<1>>, <<2, 3>> }
+PiProbe == { <<18, 85>>, <<18, 83, 3>>, <<49>>, <<49, 18>> }
 =============================================================================
